@@ -22,7 +22,7 @@ class OrientedLine:
   """
 
   def __new__(cls, *args):
-    if isinstance(args[0], OrientedLine):
+    if args and isinstance(args[0], OrientedLine):
       return args[0]
     else:
       new_instance = object.__new__(cls)
